@@ -176,7 +176,8 @@ class PropertyDescriptor(Symbol):
          relation).
         :param inferred: Whether the relation is inferred or not.
         """
-        if domain_value and range_value:
+        # "no value" is None; a Symbol may well be falsy (a class that defines __len__ or __bool__)
+        if domain_value is not None and range_value is not None:
             for v in make_set(range_value):
                 PropertyDescriptorRelation(
                     domain_value, v, self.wrapped_field, inferred=inferred
